@@ -14,6 +14,8 @@ const (
 	handshakeVersion byte = 1
 
 	defaultPoolSize int = 3
+	// the largest pool size accepted from a peer (4 receive queues are created per pool item)
+	maxPoolSize int = 1024
 )
 
 var (
